@@ -7,5 +7,10 @@
 #ifdef VERIF_WITH_MPI
 #define PARMCB_HAVE_MPI
 #endif
+#ifndef VERIF_NO_INVARIANTS_CHECK      // cmake option PARMCB_INVARIANTS_CHECK (default ON); -DVERIF_NO_INVARIANTS_CHECK = the supported configuration OFF
 #define PARMCB_INVARIANTS_CHECK
+#endif
+#ifdef VERIF_LOGGING                   // cmake option PARMCB_LOGGING (default OFF); -DVERIF_LOGGING = the supported configuration ON
+#define PARMCB_LOGGING
+#endif
 #endif
